@@ -859,13 +859,17 @@ def toml_case(args):
     if "loss" in a: a["loss"] = bool(a["loss"])         # in a file the flag is a TOML boolean (an integer there is a wrongly typed value)
     if cls == "PMux" and rnd.random() < 0.4: a["rs"] = [0.01, 0.03]
     if cls == "Converter" and isinstance(a["eff"], (int, float)): a["eff"] = float(a["eff"])
-    if cls == "LinReg" and rnd.random() < 0.35:
+    keep = set()
+    if cls == "LinReg" and rnd.random() < 0.5:
         # the deprecated iq key (scalar or table), alone or next to a different ig: the constructor lets iq win
-        a["iq"] = rnd.choice([2e-3, 5e-4, 0.0, {"vi": [5.0], "io": [0.0, 0.1, 1.0], "iq": [[1e-3, 2e-3, 3e-3]]}])
-        if rnd.random() < 0.4: a.pop("ig", None)
+        a.pop("iq", None)
+        a["iq"] = rnd.choice([2e-3, 5e-4, 2e-3, 0.0, {"vi": [5.0], "io": [0.0, 0.1, 1.0], "iq": [[1e-3, 2e-3, 3e-3]]}])
+        if rnd.random() < 0.3: a.pop("ig", None)
+        else: a.setdefault("ig", 7e-4)
+        keep = {"iq", "ig"}
     # optional keys are dropped at random: the constructor defaults must apply
     for k in list(a):
-        if k not in MANDATORY[cls] and rnd.random() < 0.4: a.pop(k)
+        if k not in MANDATORY[cls] and k not in keep and rnd.random() < 0.4: a.pop(k)
     doc = {TOML_SECTION[cls]: a}
     if lim is not None: doc["limits"] = lim
     mode = rnd.choice(["ok", "ok", "ok", "missing", "wrongtype"])
